@@ -44,7 +44,7 @@ ASSUMPTIONS = [
 ]
 CASE_TIMEOUT = 20.0
 
-PORTS = ['p', 'q', 'r', 'lo', 'g', 'al']    # some names are substrings of 'global' (the one port name that is special)
+PORTS = ['p', 'q', 'r', 'lo', 'g', 'al', 'global']    # some names are substrings of 'global' (the one port name that is special)
 VARS = ['a', 'b', 'c']
 
 
